@@ -6,7 +6,6 @@ From Frugal.proofs Require Import GenEncParams EncodeSpec RoundTrip.
 From Frugal.props Require Import Examples.
 From Frugal Require Import DisciplineChecks.
 From Frugal.proofs Require Import GenEqual.
-From Frugal.proofs Require Import GenDesc.
 Import ListNotations.
 
 (* a field occurs in the encoding exactly when it is not (optional and nil) and not (optional,
@@ -52,6 +51,3 @@ Proof. exact enc_params_ok_holds. Qed.
 Theorem C10_model_assumptions : equal_ok = true.
 Proof. exact equal_ok_holds. Qed.
 
-(* the descriptor construction of desc.go reads as the model assumes (DisciplineChecks.desc_ok) *)
-Theorem C10_descriptor_shape : desc_ok = true.
-Proof. exact desc_ok_holds. Qed.
